@@ -51,3 +51,30 @@ def run_family(rep, tier, pid, seed_mul, oracles, n_quick, n_thorough, tweak=Non
                          'coq_eval_wall_s': round(info['wall'], 1)})
     rep.samples.append({'resources': [nm for nm, _ in unis[0]['resources']], 'config': unis[0]['configs'][:2]})
     return unis, shards, outs
+
+
+def run_tables_stream(rep, tier, pid, seed_mul, n_quick, n_thorough, mode='', fuel=False):
+    """Second correspondence stream for Model/Core.v: raw table rows inserted directly into a fresh database
+    (harness/coretables.py).  Only the model-vs-code tie is evaluated on it (no property oracle)."""
+    import coretables
+    rng = random.Random(common.seed() * 104729 + seed_mul)
+    n = n_quick if tier == 'quick' else n_thorough
+    unis = [coretables.gen_universe(rng, mode) for _ in range(n)]
+    if fuel:
+        unis.append(coretables.fuel_universe())
+    nsh = common.NPROC
+    shards = [s for s in (unis[i::nsh] for i in range(nsh)) if s]
+    outs = common.run_impl_parallel('run_core_tables.py', [{'universes': s} for s in shards])
+    pairs = []
+    for s, o in zip(shards, outs):
+        pairs += coretables.pairs_for(s, o)
+    mism, info = common.coq_mismatches('WnV.Model.Core', 'run_core', 'sx_agree_default', pairs, tag=pid.lower() + 't', shard=4,
+                                       want_model_out=False)
+    if info['errors']:
+        rep.broke('table-level correspondence evaluation failed in Coq: ' + '; '.join(info['errors'])[:1500])
+    if mism:
+        rep.broke('table-level correspondence Model/Core.v vs the query API: %d of %d observations differ (first: config %s)'
+                  % (len(mism), len(pairs), str(pairs[mism[0]][0][1])[:300]))
+    rep.coverage.update({'table_level_traces_validated': len(pairs), 'table_level_mismatches': len(mism),
+                         'table_level_coq_wall_s': round(info['wall'], 1)})
+    return pairs, mism
